@@ -378,20 +378,23 @@ class Ctx:
                 if not (set(live) & r):
                     return True, call, n, 'helper %s(..)? called at %s' % (h.id.split('::')[-1], call.where)
             else:
-                # bool helper: f must branch on its result, and inside h `true` must lie behind the pass arm
-                from props.c20 import true_blocks
-                tb_ = true_blocks(h)
-                good = False
-                for (c, arm) in hc:
-                    if arm in c.arms and not (set(tb_) & h.reach([0], removed=[self.edge(c, arm)] + h_assumed)):
-                        good = True
-                if not good:
-                    continue
-                for cc in conds(f, self.S):
-                    if cc.kind == 'pred' and cc.pred == h.id and True in cc.arms:
-                        r = f.reach([0], removed=[self.edge(cc, True)] + assumed, blocked=blocked)
-                        if not (set(live) & r):
-                            return True, call, n, 'boolean helper %s tested at %s' % (h.id.split('::')[-1], call.where)
+                # bool helper: f must branch on its result; with polarity p (the value of the helper for which f proceeds to the
+                # effect), inside h every block returning p must lie behind the pass arm of the condition
+                for pol in (True, False):
+                    pb = _bool_result_blocks(h, pol)
+                    if not pb:
+                        continue
+                    good = False
+                    for (c, arm) in hc:
+                        if arm in c.arms and not (set(pb) & h.reach([0], removed=[self.edge(c, arm)] + h_assumed)):
+                            good = True
+                    if not good:
+                        continue
+                    for cc in conds(f, self.S):
+                        if cc.kind == 'pred' and cc.pred == h.id and pol in cc.arms:
+                            r = f.reach([0], removed=[self.edge(cc, pol)] + assumed, blocked=blocked)
+                            if not (set(live) & r):
+                                return True, call, n, 'boolean helper %s tested at %s' % (h.id.split('::')[-1], call.where)
         # (c) f is a closure: the guard may sit in the enclosing function before the call that runs it
         if f.kind == 'closure' and f.parent in self.prog.fns:
             par = self.prog.fns[f.parent]
@@ -481,6 +484,22 @@ class Ctx:
                 continue
             ok = True
             break
+        if not ok and live:
+            # the loop written as a fallible iterator adaptor (`try_for_each` / `try_fold` closure whose Err short-circuits and is
+            # propagated): the closure body is one iteration, and the rejection must cut every Ok return of that body
+            for g in self.prog.closures_of(f.id, recursive=False):
+                if not g.returns_result():
+                    continue
+                gc = self.find_conds(g, matcher)
+                for (c, arm) in gc:
+                    if arm not in c.arms:
+                        continue
+                    if not g.ok_returns_from([0], removed=[self.edge(c, arm)]) and g.ok_returns_from([0]):
+                        ok = True
+                        cands = cands + [(c, arm)]
+                        break
+                if ok:
+                    break
         self.rep.need(rule, key, ok and bool(live), 'per-iteration rejection "%s" must exist before %d effect site(s) in %s (%d candidate condition(s))' % (what, len(live), f.id, len(cands)),
                       self.loc(f, live[0]) if live else self.loc(f), {'rule': rule, 'guard': what, 'fn': f.id, 'candidates': len(cands)})
         return ok
@@ -632,6 +651,36 @@ class Ctx:
                         {'rule': rule, 'fn': f.id, 'what': what, 'required_atoms': pats, 'atoms': sendsmod.pretty(atoms_list[0][1])})
         return ok
 
+    def raised_only(self, rule, key, f, adt, field, src_pats, what, field_pat=None):
+        """a field that may only grow towards a source value: every write of (adt, field) in f deriving from `src_pats` is either
+        (guard form) a plain copy of the source on the true arm of `field < source`, or (max form) `max(field, source)`.
+        Returns the blocks of the writes it judged."""
+        fp = field_pat or 'F:%s.%s' % (adt, field)
+        ok = True
+        judged = []
+        for (bb, atoms) in self.stmt_rvalue_atoms(f, adt, field, narrow=False):
+            if not has_all(atoms, src_pats):
+                continue
+            judged.append(bb)
+            is_max = has_atom(atoms, 'C:cmp::max') or has_atom(atoms, 'C:Ord::max')
+            if is_max:
+                good = has_atom(atoms, fp)
+                why = 'max(%s, source) must take the field itself as one operand' % fp
+            else:
+                plain = not any(a[0] == 'XOP' for a in atoms)
+                g = self._guard_search(f, [bb], m_rel('lt', [fp], list(src_pats), True, pure=True), True, (), 0)
+                good = plain and bool(g[0])
+                why = 'a plain copy of the source is allowed only on the true arm of `%s < source`' % fp
+            if not good:
+                ok = False
+                self.rep.ob(rule, key, False, '%s: %s' % (what, why), self.loc(f, bb))
+        if not judged:
+            self.rep.ob(rule, key, False, 'no write of %s.%s deriving from %s found in %s (fail closed)' % (adt, field, list(src_pats), f.id), self.loc(f))
+            return []
+        if ok:
+            self.rep.ob(rule, key, True, '%s: %d write(s), each only ever raises the field' % (what, len(judged)), self.loc(f, judged[0]))
+        return judged
+
     def accumulates(self, rule, key, f, value_pats, what, init_pats=('C:zero',), min_sites=1):
         """an accumulator: some local is updated by `+=` (AddAssign::add_assign) with a value deriving from value_pats, and every
         plain assignment to that local is its zero initialisation (so `acc = x` in place of `acc += x` is reported)."""
@@ -641,6 +690,15 @@ class Ctx:
                 if has_all(self.N.operand(f, c.args[1]), value_pats):
                     sites.append(c)
         if len(sites) < min_sites:
+            # the same total written as a fold: a closure whose result is its accumulator parameter plus the value
+            for g in self.prog.closures_of(f.id, recursive=False):
+                lf = linear_form(self.prog, g, ['c', [0, []]])
+                accs = [k for k, v in lf.items() if k.startswith('P:') and v == {1}]
+                vals = [k for k, v in lf.items() if v == {1} and any(k == p or k.endswith(p.split(':', 1)[1]) and k[0] == p[0] for p in value_pats)]
+                if accs and vals and not any(-1 in v for v in lf.values()):
+                    self.rep.ob(rule, key, True, '%s: accumulated by a fold (closure result = accumulator + value)' % what, self.loc(g),
+                                {'rule': rule, 'fn': g.id, 'what': what, 'form': {k: sorted(v) for k, v in lf.items()}})
+                    return True
             self.rep.ob(rule, key, False, '%s: no `+=` accumulation of a value deriving from %s found in %s' % (what, list(value_pats), f.id), self.loc(f))
             return False
         ok = True
@@ -898,6 +956,26 @@ def send_to(prog, to_pats=(), method_pats=(), nonzero=None):
             return False
         return True
     return p
+
+
+def _bool_result_blocks(h, value):
+    """blocks of a bool-returning helper in which the result is given `value` (a constant) or a non-constant (either value)"""
+    out = []
+    for bi, b in enumerate(h.blocks):
+        if b.get('cleanup'):
+            continue
+        for st in b['s']:
+            if st[0] == '=' and st[1][0] == 0 and not st[1][1]:
+                rv = st[2]
+                if rv[0] == 'use' and rv[1][0] == 'k' and 'val' in rv[1][1]:
+                    if bool(rv[1][1]['val']) == value:
+                        out.append(bi)
+                else:
+                    out.append(bi)
+        t = b['t']
+        if t[0] == 'call' and t[3][0] == 0 and not t[3][1]:
+            out.append(bi)
+    return out
 
 
 # ---------------------------------------------------------------------- running totals
